@@ -99,7 +99,13 @@ def late_match(rng, p):
     first = {}
     for i, (key, v) in enumerate(outs):
         first.setdefault(v, i)
-    v = max(first, key=lambda x: first[x]) if rng.random() < 0.8 else rng.choice(list(first))
+    # a first match somewhere in the middle: late enough for the finder to be several chunks in,
+    # early enough for plenty of input to remain after it
+    mid = [x for x in first if 0.2 * len(outs) <= first[x] <= 0.7 * len(outs)]
+    if mid and rng.random() < 0.7:
+        v = rng.choice(mid)
+    else:
+        v = max(first, key=lambda x: first[x]) if rng.random() < 0.7 else rng.choice(list(first))
     want = [1 if x == v else 0 for x in range(V)]
     p["term"]["t"] = [1 - w for w in want] if k == "all" else want
     return p
